@@ -224,6 +224,16 @@ func (g *gen) expr(t typ, d int) string {
 			}
 			return "int(" + g.expr(tFloat, d-1) + ")"
 		case 7:
+			if g.t.Bool(1, 3) {
+				// a function held in a map, called through a selector
+				return "{k: func(a, ...r) { return a + len(r) }}.k(" + g.expr(tInt, d-1) + ", 1)"
+			}
+			if g.t.Bool(1, 4) {
+				return "int(uint(" + fmt.Sprint(g.t.Draw(9)) + ") + 3u)"
+			}
+			if g.t.Bool(1, 4) {
+				return "len(bytes(" + g.expr(tStr, d-1) + "))"
+			}
 			return "(" + g.expr(tInt, d-1) + " << " + fmt.Sprint(g.t.Draw(4)) + ")"
 		default:
 			return "-(" + g.expr(tInt, d-1) + ")"
@@ -248,6 +258,12 @@ func (g *gen) expr(t typ, d int) string {
 		case 2:
 			return "sprintf(\"%v-%s\", " + g.expr([]typ{tInt, tArr, tFloat, tBool}[g.t.Draw(4)], d-1) + ", " + g.expr(tStr, d-1) + ")"
 		case 3:
+			if g.t.Bool(1, 3) {
+				return "string(char(" + fmt.Sprint(97+g.t.Draw(20)) + "))"
+			}
+			if g.t.Bool(1, 3) {
+				return "string(bytes(" + g.strLit() + "))"
+			}
 			return g.expr(tStr, d-1) + "[" + fmt.Sprint(g.t.Draw(2)) + ":]"
 		case 4:
 			if c := g.callExpr(tStr, d); c != "" {
@@ -268,6 +284,9 @@ func (g *gen) expr(t typ, d int) string {
 		case 3:
 			return "(" + g.expr(tStr, d-1) + " == " + g.expr(tStr, d-1) + ")"
 		case 4:
+			if g.t.Bool(1, 2) {
+				return "contains(" + g.expr(tStr, d-1) + ", " + g.strLit() + ")"
+			}
 			return "isError(" + g.expr(tAny, d-1) + ")"
 		default:
 			return g.leaf(t)
@@ -279,6 +298,14 @@ func (g *gen) expr(t typ, d int) string {
 		case 1:
 			return "(" + g.expr(tArr, d-1) + " + " + g.expr(tArr, d-1) + ")"
 		case 2:
+			switch g.t.Draw(4) {
+			case 0:
+				return "repeat(" + g.leaf(tArr) + ", " + fmt.Sprint(g.t.Draw(3)) + ")"
+			case 1:
+				return "copy(" + g.expr(tArr, d-1) + ")"
+			case 2:
+				return "chars(" + g.strLit() + ")"
+			}
 			return g.expr(tArr, d-1) + "[" + fmt.Sprint(g.t.Draw(2)) + ":]"
 		case 3:
 			if c := g.callExpr(tArr, d); c != "" {
